@@ -82,6 +82,10 @@ def generate(seed: int, tier: str) -> Dict[str, Any]:
                     "fault": ro.weighted([(None, 6), ("reflect", 1), ("index_add", 1), ("index_missing", 1), ("telemetry", 1), ("fixture_missing", 2), ("fixture_gone", 1), ("fixture_torn", 1)]),
                     "exc": ro.choice(sorted(EXC_TYPES)), "completion": ro.choice(COMPLETIONS), "prior_read": ro.chance(0.5),
                     "overproduce": ro.choice([0, 0, 0, 2, 3, 7])})
+    if ro.chance(0.12):
+        # a driver that hands its clock over instead of a number
+        for o in ops:
+            o["now_ms_callable"] = True
     if ro.chance(0.3):
         # one context object kept by the driver across turns
         for o in ops[1:]:
@@ -295,6 +299,8 @@ def _run(program: Dict[str, Any], clock: SimClock, stats: Optional[Dict[str, int
                         try:
                             pre["active_graphs"] = list(program["world"]["agents"].get(op["agent"], []))
                             tctx = E.make_ctx(tcfg, op["agent"], op["turn_id"], op["now_ms"])
+                            if op.get("now_ms_callable"):
+                                E.hand_over_clock(tctx, op["now_ms"])
                             if op.get("dry_run"):
                                 tctx._dry_run_until_t4 = True
                             cur["fault"] = None
@@ -346,6 +352,25 @@ def execute(program: Dict[str, Any]) -> Dict[str, Any]:
                              "detail": "turn op#%s: %s with one context kept across turns, %s with a fresh context per turn" % (k[0], ea[k], ef[k])})
                 break
         stats["kept_context_runs"] = stats.get("kept_context_runs", 0) + 1
+    if not viol and any(op.get("now_ms_callable") for op in program["ops"]):
+        # with a clock handed over, how often the engine reads it depends on what else is switched on (the scheduler reads it at
+        # every stage boundary): an entry's time stamp must not
+        flipped = copy.deepcopy(program)
+        sc = flipped["cfg"].setdefault("scheduler", {})
+        if sc.get("enabled"):
+            sc["enabled"] = False
+        else:
+            sc.update({"enabled": True, "quantum_ms": 10**9})
+            sc.setdefault("budgets", {})["wall_ms"] = 2 * 10**9
+        g = _run(flipped, SimClock(None, "steady"), None, False)
+        ea = {(e[0], e[3]): e for e in a["entries"]}
+        eg = {(e[0], e[3]): e for e in g["entries"]}
+        for k in sorted(set(ea) & set(eg), key=repr):
+            if ea[k] != eg[k]:
+                viol.append({"cls": "reflection", "sig": "id-or-timestamp-depends-on-clock-traffic",
+                             "detail": "turn op#%s: %s ; with the scheduler %s: %s" % (k[0], ea[k], "off" if program["cfg"].get("scheduler", {}).get("enabled") else "on", eg[k])})
+                break
+        stats["callable_clock_runs"] = stats.get("callable_clock_runs", 0) + 1
     nontrivial = bool(stats.get("reflection_writes") or stats.get("failing_reflections") or stats.get("gate_closed"))
     faults = {"over_budget": stats.get("over_budget", 0), "failing": stats.get("failing_reflections", 0)}
     for op in program["ops"]:
